@@ -72,12 +72,60 @@ def install(I):
                    "IntEnum": cls("IntEnum", "enum.IntEnum", [I.builtins["int"], enum_])}
     ext["strenum"] = {"StrEnum": strenum}
 
+    # ---- dataclasses -------------------------------------------------------
+    class FieldSpec:
+        def __init__(self, default=None, default_factory=None, has_default=False):
+            self.default, self.default_factory, self.has_default = default, default_factory, has_default
+
+    def dc_field(ctx, default=None, default_factory=None, **k):
+        return FieldSpec(default, default_factory, default is not None or default_factory is not None)
+
+    def dataclass(ctx, c=None, **kw):
+        import ast as _ast
+        if c is None:
+            return Builtin("dataclass", lambda ctx2, c2: dataclass(ctx2, c2))
+        ctx.assumed_ext.add("dataclasses.dataclass: generated __init__ assigns the declared fields in order (defaults / default_factory per instance)")
+        fields = []
+        for k in reversed(c.mro()):
+            if k.node is None:
+                continue
+            for st in k.node.body:
+                if isinstance(st, _ast.AnnAssign) and isinstance(st.target, _ast.Name):
+                    nm = st.target.id
+                    spec = k.ns.get(nm, None) if st.value is not None else None
+                    fields = [f for f in fields if f[0] != nm]
+                    fields.append((nm, st.value is not None, spec))
+
+        def init(ctx2, self_, *args, **kwargs):
+            args = list(args)
+            for i, (nm, has, spec) in enumerate(fields):
+                if i < len(args):
+                    v = args[i]
+                elif nm in kwargs:
+                    v = kwargs.pop(nm)
+                elif isinstance(spec, FieldSpec):
+                    v = I.call(ctx2, spec.default_factory, [], {}) if spec.default_factory is not None else spec.default
+                elif has:
+                    v = spec
+                else:
+                    raise I.raise_exc("TypeError")
+                self_.fields[nm] = v
+            if kwargs or len(args) > len(fields):
+                raise I.raise_exc("TypeError")
+        c.ns["__init__"] = Builtin(c.name + ".__init__", init, {"method": True})
+        for nm, has, spec in fields:
+            if isinstance(spec, FieldSpec):
+                c.ns.pop(nm, None)
+        return c
+    ext["dataclasses"] = {"dataclass": Builtin("dataclass", dataclass), "field": Builtin("field", dc_field)}
+
     # ---- misc stdlib ---------------------------------------------------------
     ext["warnings"] = {"warn": noop}
     ext["logging"] = {"getLogger": Builtin("getLogger", lambda ctx, *a: Opaque(None, "logger")), "INFO": 20,
                       "DEBUG": 10, "WARNING": 30}
     ext["os"] = {"linesep": "\n", "path": None, "pardir": ".."}
-    ext["sys"] = {"version_info": TupleVal((3, 12, 1)), "platform": "linux"}
+    ext["sys"] = {"version_info": TupleVal((3, 12, 1)), "platform": "linux", "maxsize": 2 ** 63 - 1}
+    ext["time"] = {"time_ns": Builtin("time.time_ns", lambda ctx: Sym(ctx.fresh_int("time_ns")))}
     ext["textwrap"] = {"dedent": ident}
 
     # ---- re: concrete strings are matched by the real engine; symbolic ones by regex derivatives (fmtterms)
